@@ -522,9 +522,7 @@ func speed(c *ctx) {
 	res := map[string]string{}
 	benches := []b{{"sha256", 64, 2000}, {"sha256", 8192, 50}, {"sha512", 8192, 50}, {"hmac", 8192, 50}, {"hmac", 64, 1000},
 		{"hkdfe", 144, 200}, {"xsalsa", 1536, 100}, {"poly", 1536, 100}, {"poly", 8192, 30}, {"sbseal", 1536, 100}, {"sbseal", 8192, 30},
-		{"sbopen", 1536, 100}}
-	later := []b{{"aesblk128", 16, 3000}, {"aesblk256", 16, 3000}, {"aesctr128", 1536, 100}, {"aesctr256", 1536, 100}, {"aesctr256", 8192, 30}}
-	_ = later
+		{"sbopen", 1536, 100}, {"aesblk128", 16, 3000}, {"aesblk256", 16, 3000}, {"aesctr128", 1536, 100}, {"aesctr256", 1536, 100}, {"aesctr256", 8192, 30}}
 	for _, x := range benches {
 		t0 := time.Now()
 		rep := c.d.Call("bench %s %d %d", x.prim, x.size, x.iters)
@@ -558,9 +556,7 @@ func main() {
 	salsas(c, rng.Fork())
 	polys(c, rng.Fork())
 	boxes(c, rng.Fork())
-	if false {
-		aeses(c, rng.Fork())
-	}
+	aeses(c, rng.Fork())
 	speed(c)
 	r.Finish()
 }
